@@ -21,7 +21,7 @@ pub fn run_case(w: &[&str]) -> Option<String> {
                 }
                 Err(e) => {
                     let msg = e.chain().map(|c| c.to_string()).collect::<Vec<_>>().join(" / ");
-                    if msg.contains("Empty Group not allowed") || msg.contains("Empty Optionals not allowed") || msg.contains("Empty Repetitions not allowed") || msg.contains("Multiple token aliases") {
+                    if msg.contains("Empty Group not allowed") || msg.contains("Empty Optionals not allowed") || msg.contains("Empty Repetitions not allowed") || msg.contains("Multiple token aliases") || msg.contains("has no production") {
                         "rejected".to_string()
                     } else if msg.contains("Expected one alternation per production") {
                         "finalize-error".to_string()
